@@ -23,6 +23,8 @@ Conventions (conservative: when in doubt an access is reported, and reported as 
     contain lock operations;
   * a bare `self.l.acquire()` must be followed immediately by `try: ... finally: self.l.release()`,
     otherwise an exception or return could leak the lock: refused;
+  * every write to any attribute of self is reported (XWrite), whatever the attribute; an attribute of self
+    that no `__init__` of the MRO creates is refused (unknown shared state);
   * passing `self` itself anywhere, nested functions, lambdas, yield, global, subscript stores on
     non-self targets and every ast node not listed here are refused (fail closed).
 The decision whether the lists respect the lock discipline is NOT taken here: it is
@@ -360,6 +362,11 @@ class MethodExtractor:
         raise Refuse('statement %s (line %d)' % (type(s).__name__, s.lineno))
 
     def method(self, fd):
+        for n in ast.walk(fd):
+            a = self_attr(n)
+            if a is not None and a not in self.cls.init_attrs and a not in self.cls.method_names:
+                raise Refuse('attribute self.%s (line %d) is not created by __init__: unknown shared state'
+                             % (a, n.lineno))
         if fd.args.vararg or fd.args.kwarg:
             raise Refuse('varargs in %s' % fd.name)
         if not fd.args.args or fd.args.args[0].arg != 'self':
@@ -390,6 +397,23 @@ class ClassInfo:
                 raise Refuse('class %s not found exactly once in %s' % (cname, rel))
             self.mro.append((cname, cds[0], rel))
         self.mro_names = [c for c, _, _ in self.mro]
+        # attributes the constructors create; an analysed method touching any other attribute of self
+        # (state that springs into existence later, e.g. an ad-hoc cache) is refused: fail closed
+        self.init_attrs = set()
+        self.method_names = set()
+        for _, cd, _ in self.mro:
+            for n in cd.body:
+                if isinstance(n, ast.FunctionDef):
+                    self.method_names.add(n.name)
+                    if n.name == '__init__':
+                        for x in ast.walk(n):
+                            if isinstance(x, (ast.Assign, ast.AugAssign, ast.AnnAssign)):
+                                ts = x.targets if isinstance(x, ast.Assign) else [x.target]
+                                for t in ts:
+                                    for y in ast.walk(t):
+                                        a = self_attr(y)
+                                        if a is not None:
+                                            self.init_attrs.add(a)
         self.locks = set()
         for _, cd, _ in self.mro:
             for n in ast.walk(cd):
